@@ -13,6 +13,16 @@ import (
 
 func (a *act) loopLabel(li *loopInfo) string { return fmt.Sprintf("loop%d", li.index) }
 
+func (a *act) invs(li *loopInfo) []*Clause {
+	if li.spec == nil {
+		return nil
+	}
+	if a.fx.lockMode {
+		return append(append([]*Clause{}, li.spec.Invariants...), li.spec.LockInvariants...)
+	}
+	return li.spec.Invariants
+}
+
 func (a *act) invEnv(li *loopInfo, st *State) *SEnv {
 	qn := 0
 	env := &SEnv{vars: map[string]Val{}, act: a, header: li.header, nowOld: a.fx.nowEntry, qn: &qn}
@@ -102,7 +112,7 @@ func (a *act) loopHead(li *loopInfo, b *ssa.BasicBlock, preds []*ssa.BasicBlock,
 	// entry obligations
 	env := a.invEnv(li, cur)
 	if li.spec != nil {
-		for i, inv := range li.spec.Invariants {
+		for i, inv := range a.invs(li) {
 			t := a.safeSpec(inv, env, cur)
 			fx.addObl("inv-entry", fmt.Sprintf("%s%s:%s", a.prefix(), a.loopLabel(li), invName(inv, i)), reach, t, b.Instrs[0].Pos(), "loop invariant on entry")
 		}
@@ -142,7 +152,7 @@ func (a *act) loopHead(li *loopInfo, b *ssa.BasicBlock, preds []*ssa.BasicBlock,
 	// assume invariants
 	env = a.invEnv(li, head)
 	if li.spec != nil {
-		for _, inv := range li.spec.Invariants {
+		for _, inv := range a.invs(li) {
 			fx.ctx.Assert(Imp(reach, a.safeSpec(inv, env, head)))
 		}
 	}
@@ -227,7 +237,7 @@ func (a *act) backEdge(li *loopInfo, from *ssa.BasicBlock, cond string, st *Stat
 	}
 	env := a.invEnv(li, st)
 	if li.spec != nil {
-		for i, inv := range li.spec.Invariants {
+		for i, inv := range a.invs(li) {
 			t := a.safeSpec(inv, env, st)
 			fx.addObl("inv-step", fmt.Sprintf("%s%s:%s", a.prefix(), a.loopLabel(li), invName(inv, i)), cond, t, from.Instrs[len(from.Instrs)-1].Pos(), "loop invariant preserved")
 		}
